@@ -16,7 +16,7 @@ INFO = {
              '1..64: add unique values, resize up/down, iterate, reseed; invariants after every step. Non-trivial = A: a '
              'non-200 outcome or requests after a reset; B: a resize after the store has overflowed. Distinct histories counted.'),
     'assumptions': ['routes have pairwise distinct patterns (the report is keyed by pattern, O9)',
-                    'the reset request\'s own hit may land in either epoch (tolerated on that one route only)'],
+                    'the reset request\'s own hit must be counted exactly once: either in the totals that reset returns or in the following epoch'],
 }
 
 ROUTE_KINDS = ['answer', 'redirect', 'raise403', 'ret404', 'raise500', 'ret503', 'nb403', 'nbret404', 'boom', 'answer-post', 'created']
@@ -131,9 +131,10 @@ class StatsSim(object):
         elif kind == 'reset':
             r = call(self.app, '/_stats/reset', 'POST', query='format=json')
             ctx.requests += 1
-            self.compare(r, 'reset')
+            in_old = self.compare(r, 'reset')
             self.model = Counter()
-            self.model[('/_stats/reset', '200')] += 1
+            if not in_old:
+                self.model[('/_stats/reset', '200')] += 1      # then it must show up in the next report
             self.after_reset = True
 
     def compare(self, r, what):
@@ -151,16 +152,18 @@ class StatsSim(object):
             for k, d in by_status.items():
                 got[(pattern, strip(k))] += d['count']
         want = Counter(dict((k, v) for k, v in self.model.items() if v))
+        in_old = False
         if got != want:
-            # the reset request's own hit may be accounted to either epoch
-            g2, w2 = Counter(got), Counter(want)
+            # a reset request's own hit may already be part of the totals it returns (then it is not owed to the next epoch)
             key = ('/_stats/reset', '200')
-            if abs(g2.get(key, 0) - w2.get(key, 0)) <= 1:
-                g2.pop(key, None)
-                w2.pop(key, None)
+            g2, w2 = Counter(got), Counter(want)
+            if what == 'reset' and g2.get(key, 0) == w2.get(key, 0) + 1:
+                in_old = True
+                w2[key] += 1
             if g2 != w2:
                 diff = dict((k, (got.get(k, 0), want.get(k, 0))) for k in set(got) | set(want) if got.get(k, 0) != want.get(k, 0))
                 ctx.mismatch('count-mismatch', '%s: (pattern, key): (reported, model) %r' % (what, diff))
+        return in_old
 
 
 def stats_machine():
